@@ -36,6 +36,10 @@ var c03Inl = []inl{
 		return "<a href=\"javascript:void(0)\">" + t.W(1) + "<i>" + t.W(1) + "</i></a>"
 	}},
 	{"a-js3", func(t *ora.Tok) string { return "<a href=\"javascript:void(0)\">" + t.W(1) + "<br>" + t.W(1) + "</a>" }},
+	{"b-br-last", func(t *ora.Tok) string { return "<b>" + t.W(2) + "<br></b>" }},
+	{"a-br-last", func(t *ora.Tok) string {
+		return "<a href=\"http://example.com/l/" + t.U() + "\">" + t.W(1) + "<br></a>"
+	}},
 	{"a-hash", func(t *ora.Tok) string { return "<a href=\"#\">" + t.W(2) + "</a>" }},
 	// thorough only:
 	{"i", wrapInl("i")},
@@ -45,7 +49,7 @@ var c03Inl = []inl{
 	{"a-rel", func(t *ora.Tok) string { return "<a href=\"rel/" + t.U() + ".html\">" + t.W(2) + "</a>" }},
 }
 
-const c03QuickSyms = 14
+const c03QuickSyms = 16
 
 var c03Contexts = []string{"body", "div", "li", "blockquote", "td-layout", "td-data"}
 var c03Surround = []string{"kept", "dropped", "between"}
@@ -255,7 +259,7 @@ func init() {
 	eng.Register(&eng.Prop{
 		ID:        "C03",
 		DesignRef: "§5 C03",
-		Rule: "one probe paragraph whose children are every sequence of length <= 4 over 14 inline symbols (quick; full-length sequences in 3 of the 18 context/surrounding pairs, shorter ones in all 18) / <= 5 over 19 symbols in all 18 pairs (thorough): text short/long, br, b, span, font, code, a[abs], a[javascript:] with one text child, a[javascript:] with element child, nested b>i, a[javascript:] with text + element child, a[javascript:] with text + br + text, a[href=#] (+ i, em, strong, u, a[rel]); " +
+		Rule: "one probe paragraph whose children are every sequence of length <= 4 over 16 inline symbols (quick; full-length sequences in 3 of the 18 context/surrounding pairs, shorter ones in all 18) / <= 5 over 21 symbols in all 18 pairs (thorough): text short/long, br, b, span, font, code, a[abs], a[javascript:] with one text child, a[javascript:] with element child, nested b>i, a[javascript:] with text + element child, a[javascript:] with text + br + text, a[href=#], b and a ending in a br (+ i, em, strong, u, a[rel]); " +
 			"contexts {body, div, li, blockquote, layout-table cell, data-table cell} x surroundings {among kept paragraphs, among dropped link clusters, between}; plus a fixed mixed paragraph at every nesting depth 1..300. Oracle: for every <p> of the parsed input built only from text, br and plain inline/link elements, its visible words are all in Text or none is. " +
 			"Non-trivial = probe with >= 2 children including a text leaf and an element.",
 		Enumerate: c03Enumerate,
